@@ -33,13 +33,13 @@ static __u32 g_one = 1;
 static struct route_ctx g_route_ctx;
 static unsigned char g_scratch[4096];
 /* per-CPU scratch maps of the kernel program: one static buffer per map */
-static struct { void *map; unsigned char buf[4096] __attribute__((aligned(16))); } g_percpu[8];
+static struct { void *map; unsigned char buf[4096] __attribute__((aligned(16))); } g_percpu[16];
 static unsigned char g_pkt[256];
 static unsigned g_pktlen;
 
 static void *percpu_buf(void *map)
 {
-	for (unsigned i = 0; i < 8; i++) {
+	for (unsigned i = 0; i < 16; i++) {
 		if (g_percpu[i].map == map) return g_percpu[i].buf;
 		if (!g_percpu[i].map) { g_percpu[i].map = map; return g_percpu[i].buf; }
 	}
@@ -86,11 +86,11 @@ void *bpf_map_lookup_elem(void *map, const void *key)
 		rec_key(map, key, 16);
 		return NULL;
 	}
-	if (map == &pkt_scratch_map || map == &parse_ctx_scratch_map || map == &wan_egress_route_scratch_map ||
-	    map == &conntrack_args_map)
-		return percpu_buf(map);
-	memset(g_scratch, 0, sizeof(g_scratch));
-	return NULL;
+	if (map == &conn_state_map || map == &routing_handoff_map || map == &redirect_track || map == &cookie_pid_map ||
+	    map == &fast_sock || map == &bpf_stats_map || map == &event_ringbuf)
+		return NULL; /* hash / stats maps: "no entry" */
+	/* every other map (the per-CPU scratch maps, also ones added later) gets a zeroed static buffer */
+	return percpu_buf(map);
 }
 long bpf_map_update_elem(void *map, const void *key, const void *value, __u64 flags) { return 0; }
 long bpf_map_delete_elem(void *map, const void *key) { return 0; }
